@@ -7,7 +7,7 @@
 (* postfix chains, tuples, and truncated (garbled) strings.  A skeleton is *)
 (* a token sequence with typed slots; Next fills the first slot.           *)
 (***************************************************************************)
-EXTENDS C07_Env, Json
+EXTENDS C07_Model, Json
 CONSTANT Tier
 VARIABLE toks
 
@@ -71,7 +71,11 @@ Complete == ~HasSlot(toks)
 
 ASSUME PrintT(ToJson([envs |-> Envs]))
 \* every complete string, and its truncations (garbled input: must parse or raise the parse error)
+\* design-level check: the transcribed parser against the reference Python grammar, by
+\* evaluation in every environment of the box; disagreeing strings are reported
 Emit == Complete =>
+    /\ LET m == ModelVerdict(toks) IN
+       (m.v \in {"OK", "SKIP"} \/ PrintT(ToJson([design |-> m.v, dtoks |-> toks])))
     /\ PrintT(ToJson([toks |-> toks, garbled |-> FALSE]))
     /\ (Len(toks) < 4 \/ Len(toks) > 6
         \/ PrintT(ToJson([toks |-> SubSeq(toks, 1, Len(toks) - 1), garbled |-> TRUE])))
